@@ -313,7 +313,9 @@ PROPS = {
         streams=[conc_stream('once', 80, 2000), chain_stream(3000, 100000, _nt_c06, name='static'), chain_stream(2000, 60000, _nt_bound, name='femotif')],
         rule='stream once: 1-4 chains sharing a Singleton provider, each with its own Cacheable static injector, bound with init functions; 2-13 goroutines race '
              'init (with different arguments) and invoke on every chain under the race detector with yield perturbation; observed: the Singleton ran once, each '
-             'static chain ran once, every init call of a chain returned the same values; plus the static stream (sequential sessions with repeated init calls)',
+             'static chain ran once, every init call of a chain returned the same values; then, sequentially, Singleton(p) and Memoize(p) - annotated copies of one '
+             'provider, same id - are bound into two collections each, in a seed-chosen order: the Singleton copies run once whatever their input, the Memoize '
+             'copies once per input; plus the static stream (sequential sessions with repeated init calls)',
         level_text='Theorems once_exactly_once (any number of racing callers, every schedule: at most one call, every caller that returned observed its result), '
                    'static_not_rerun, init_idempotent, first_run_sets_done (the static chain runs in the first init / first invoke only; later init arguments '
                    'are ignored); Coq, no axioms.',
@@ -323,8 +325,10 @@ PROPS = {
     'C11': dict(
         monitor=True,
         streams=[dict(name='history', n_quick=1200, n_thorough=40000, nontrivial=_nt_pair, compare=_pair_compare, wf_check=False, race=True),
-                 chain_stream(2000, 50000, _nt_bound, name='regroup'), conc_stream('memo', 100, 2500)],
-        rule='stream history (run under the race detector): a chain without Memoize/Singleton (their process-wide caches are history by design, C09) is built once, '
+                 chain_stream(2000, 50000, _nt_bound, name='regroup'), conc_stream('memo', 100, 2500), conc_stream('once', 40, 1000)],
+        rule='stream once (as for C10) ends with a bind-order scenario: Singleton(p) and Memoize(p), annotated copies of one provider, are bound into two '
+             'collections each, in either order; the Singleton copies must run once whatever the input and the Memoize copies once per input. '
+             'stream history (run under the race detector): a chain without Memoize/Singleton (their process-wide caches are history by design, C09) is built once, '
              'one provider possibly standing behind a GenerateFromInjectionChain generator; two collections are derived from it (Sequence, Append); then a seeded '
              'history of 3-10 operations runs over a growing pool of collections sharing its providers: Append (twice on the same collection), annotation of whole '
              'collections (Required/Desired/Shun/Cacheable/MustCache/NotCacheable/NonFinal/Reorder/Parallel), Sequence around a collection, Bind with the original '
@@ -497,7 +501,9 @@ PROPS = {
                  dict(name='filler', n_quick=6000, n_thorough=300000, nontrivial=lambda c, o: o.startswith('FILL ok'), compare=lambda c, o, m: o == m, wf_check=False),
                  chain_stream(3000, 100000, _nt_bound), chain_stream(2000, 60000, _nt_bound, name='femotif')],
         rule=CHAIN_RULE + 'stream femotif: annotated (Memoize/Cacheable/MustCache) injectors on hashable and unhashable inputs, a quarter of them supplied through the Reflective interface. stream refltwin: a chain of plain functions paired with the same chain in which a random subset of injectors, wrappers and the final function '
-             'is supplied through MakeReflective / ReflectiveWrapper; monitor: the two observations (plan, wiring, results, call log) are identical. '
+             'is supplied through MakeReflective / ReflectiveWrapper; a Reflective wrapper and a Reflective final function hand back values built with '
+             'reflect.ValueOf (dynamic types, not the interface types Out() declares) and every wrapper marks in the log a value received from inner() whose '
+             'type is not the declared one; monitor: the two observations (plan, wiring, results, call log) are identical. '
              'stream curry: original functions of 1-7 parameters over 3-5 types (repeats, a func-typed parameter now and then) and curried signatures keeping a '
              'random sub-multiset in random order, plus invalid variants (type curried twice, extra/missing parameter, nothing curried, first curried input a function); '
              'the chain supplies per-invocation values for the curried-away types, is invoked 1-4 times and the curried function is called after each invocation: the '
@@ -505,13 +511,15 @@ PROPS = {
              'stream saveto: 1-6 pointers over 2-6 types (same type repeated, func pointer first), 1-4 invocations. '
              'stream filler: struct types built with reflect.StructOf (1-5 fields per level, nesting up to depth 5, tags nofill/fill/skip/-/whole/blob/fields, user tags) '
              'and two declared types with unexported fields, pointer and value models, post-actions by tag, by name and by type taking the field or its address, '
-             'with and without WithFill; 1-3 invocations; observed: Bind error or, per invocation, the order and arguments of the post-actions and every leaf of the '
+             'a third of them with one or two further parameters (half of those of the field\'s own type, before or after the field parameter: ties in '
+             'addFieldFiller; the model\'s field_param says which parameter is the field, the others come from the chain), with and without WithFill; 1-3 invocations; observed: Bind error or, per invocation, the order and arguments of the post-actions and every leaf of the '
              'struct the final function receives',
         level_text='Theorems C20_reflective_irrelevant (replacing any subset of providers by Reflective equivalents leaves the whole model observation unchanged), '
                    'C20_curry_args_typed / C20_curry_curried_distinct / C20_curry_pass_order (every parameter of the original function gets a value of its type, '
                    'the injected one or the k-th argument of that type), C20_saveto, C20_struct_plan_paths + C20_fill_spec (for any tags and post-actions the inputs '
                    'are stored at pairwise independent existing places, each lands at its field, nothing else changes) and C20_struct_plan_plain (untagged structs: '
-                   'exactly the exported fields, recursively, in declaration order); all lists, shapes and depths; Coq, no axioms. The models of utils.go and filler.go '
+                   'exactly the exported fields, recursively, in declaration order), C20_post_action_field_parameter / C20_post_action_without_field_parameter (the parameter of a '
+                   'post-action function that stands for the field is the first one of the field\'s type or a pointer to it; none means no match); all lists, shapes and depths; Coq, no axioms. The models of utils.go and filler.go '
                    'are tied to /repo by the curry, saveto and filler streams; post-action order and the tag rules are part of the model and validated by the stream, '
                    'their specification beyond the plain case is the model itself.',
         level_note=CHAIN_NOTE + ' WithMethodCall, FillExisting, MatchToOpenInterface and field/function type conversion in post-actions are not exercised.',
